@@ -222,7 +222,21 @@ impl ReferenceProcessor<u32, (u32, usize), (u32, usize)> for NextReferenceIdProc
             return Some((START_REFERENCE_ID, missing_refs_result));
         }
 
-        Some((ref_id_result + 1, missing_refs_result))
+        match ref_id_result.checked_add(1)
+        {
+            Some(next_ref_id) => Some((next_ref_id, missing_refs_result)),
+            None =>
+            {
+                if missing_refs_result == 0
+                {
+                    /* Nothing needs an ID, so there is no ID to run out of. */
+                    return Some((ref_id_result, missing_refs_result));
+                }
+
+                error!("[ref: 36] Reference ID range exhausted: the largest possible ID is already in use");
+                None
+            },
+        }
     }
 }
 
@@ -454,7 +468,29 @@ impl ReferenceProcessor<Arc<AtomicU32>, InsertReferencesResult, InsertReferences
 
             unwritten_content_start_pos += insert_pos - unwritten_content_start_pos;
 
-            let reference_id = next_reference_id.fetch_add(1, std::sync::atomic::Ordering::Relaxed);
+            /* IDs run from 1 to u32::MAX. Once u32::MAX has been handed out the counter becomes 0
+             * and stays there, meaning that no IDs are left.
+             */
+            let reference_id = match next_reference_id.fetch_update(
+                std::sync::atomic::Ordering::Relaxed,
+                std::sync::atomic::Ordering::Relaxed,
+                |id| if id == 0 { None } else { Some(id.wrapping_add(1)) },
+            )
+            {
+                Ok(id) => id,
+                Err(_) =>
+                {
+                    task::spawn(async {
+                        error!("[ref: 37] Reference ID range exhausted");
+                    })
+                    .await;
+
+                    return Some(InsertReferencesResult {
+                        failure: true,
+                        num_inserted_references: 0,
+                    });
+                },
+            };
             let insertable_ref_id_string = entry.insertable_reference_string(reference_id);
 
             match scratch_file
